@@ -17,10 +17,10 @@ cargo build --offline -q --workspace 2> "$OUT/build_after.log"; B1=$?
 if [ $B1 != 0 ]; then cargo clean -q 2>/dev/null; cargo build --offline -q --workspace 2> "$OUT/build_after.log"; B1=$?; fi
 cargo nextest run --workspace --no-fail-fast --tool-config-file pb:/w/lib/nextest.toml --profile pb --test-threads 8 --offline > "$OUT/suite.log" 2>&1
 SUMMARY=$(grep -E "Summary" "$OUT/suite.log" | tail -1)
-FAILED=$(grep -E "^\s+FAIL" "$OUT/suite.log" | sed 's/.*) //' | sort -u | tr '\n' ' ')
+FAILED=$(grep -E "^\s+FAIL" "$OUT/suite.log" | awk '{print $NF}' | grep -E '^[A-Za-z_][A-Za-z0-9_]*$' | sort -u | tr '\n' ' ')
 # re-run failed tests alone (the els completion tests are flaky under load)
 STILL=""
-for t in $(grep -E "^\s+FAIL" "$OUT/suite.log" | awk '{print $NF}' | sort -u); do
+for t in $(grep -E "^\s+FAIL" "$OUT/suite.log" | awk '{print $NF}' | grep -E '^[A-Za-z_][A-Za-z0-9_]*$' | sort -u); do
   ok=0
   for k in 1 2 3; do
     if cargo nextest run --workspace --tool-config-file pb:/w/lib/nextest.toml --profile pb --offline -E "test(=$t)" > /dev/null 2>&1; then ok=1; break; fi
